@@ -45,7 +45,7 @@ func emit(op string, args string, res string, feats []string) {
 	fmt.Fprintf(out, "%d %s %s | %s | %s\n", id, op, args, res, strings.Join(feats, ","))
 }
 
-func I(v int64) string { return kvfmt.I(v) }
+func I(v int64) string  { return kvfmt.I(v) }
 func S(s string) string { return kvfmt.Bytes([]byte(s)) }
 
 func join(l []string, sep string) string {
@@ -1581,15 +1581,18 @@ func genSeekSteps(r *rand.Rand) []seekStep {
 }
 
 func tier3Seek(r *rand.Rand, n int) {
-	// the witnesses of the Coq refutation theorems, replayed on the real Conn
-	runSeek([]seekStep{{off: -2, whence: kafka.SeekAbsolute, kind: 'K', first: 0, last: 10}}, []string{"witness-range-check"})
-	runSeek([]seekStep{{off: 5, whence: kafka.SeekCurrent, kind: 'K', first: 100, last: 200}}, []string{"witness-current-sentinel"})
-	runSeek([]seekStep{{off: 5, whence: kafka.SeekCurrent, kind: 'K', first: 0, last: 200}}, []string{"witness-current-sentinel"})
+	// regression cases: the unchanged-offset shortcut (C19_seek_unchanged_shortcut_example) and
+	// SeekCurrent from the FirstOffset/LastOffset placeholders (C19_seek_current_fresh; once a defect)
+	runSeek([]seekStep{{off: -2, whence: kafka.SeekAbsolute, kind: 'K', first: 0, last: 10}}, []string{"shortcut-example"})
+	runSeek([]seekStep{{off: 5, whence: kafka.SeekCurrent, kind: 'K', first: 100, last: 200}}, []string{"regression-current-sentinel"})
+	runSeek([]seekStep{{off: 5, whence: kafka.SeekCurrent, kind: 'K', first: 0, last: 200}}, []string{"regression-current-sentinel"})
+	runSeek([]seekStep{{off: 5, whence: kafka.SeekCurrent | kafka.SeekDontCheck, kind: 'K', first: 100, last: 200}}, []string{"regression-current-sentinel"})
+	runSeek([]seekStep{{off: 101, whence: kafka.SeekCurrent | kafka.SeekDontCheck, kind: 'K', first: 100, last: 200}}, []string{"regression-current-sentinel"})
 	runSeek([]seekStep{{off: 0, whence: kafka.SeekEnd, kind: 'K', first: 100, last: 200}, {off: 0, whence: kafka.SeekEnd | kafka.SeekDontCheck, kind: 'K', first: 100, last: 200}}, nil)
 	runSeek([]seekStep{{off: 150, whence: kafka.SeekAbsolute, kind: 'K', first: 100, last: 200},
-		{off: 150, whence: kafka.SeekAbsolute, kind: 'K', first: 160, last: 200}}, []string{"witness-range-check"})
+		{off: 150, whence: kafka.SeekAbsolute, kind: 'K', first: 160, last: 200}}, []string{"shortcut-example"})
 	runSeek([]seekStep{{off: -1, whence: kafka.SeekAbsolute | kafka.SeekDontCheck, kind: 'K', first: 100, last: 200},
-		{off: -5, whence: kafka.SeekCurrent, kind: 'K', first: 100, last: 200}}, []string{"witness-current-sentinel"})
+		{off: -5, whence: kafka.SeekCurrent, kind: 'K', first: 100, last: 200}}, []string{"regression-current-sentinel"})
 	runSeek([]seekStep{{off: math.MinInt64, whence: kafka.SeekAbsolute | kafka.SeekDontCheck, kind: 'K', first: 0, last: 10},
 		{off: math.MinInt64, whence: kafka.SeekCurrent, kind: 'K', first: 0, last: 10}}, []string{"int64-wrap"})
 	for i := 0; i < n; i++ {
@@ -1718,10 +1721,10 @@ func tier3ReadPartitions(r *rand.Rand, n int) {
 		// response given to the model is what the peer was asked to send
 		emit("rp", kvfmt.Bool(v6)+" "+S(connTopic)+" "+fmtMdResponse(m), rs, dedup(feats))
 	}
-	// witness of C19_read_partitions_partition_error_refuted
+	// regression case: a leaderless partition's error code must be reported (once dropped)
 	run(&metadata.Response{Brokers: []metadata.ResponseBroker{{NodeID: 0, Host: "h0", Port: 9092}},
 		Topics: []metadata.ResponseTopic{{Name: "t", Partitions: []metadata.ResponsePartition{{ErrorCode: 5, PartitionIndex: 0, LeaderID: -1, ReplicaNodes: []int32{0}}}}}},
-		false, "t", nil, []string{"witness-partition-error-dropped"})
+		false, "t", nil, []string{"regression-partition-error"})
 	for i := 0; i < n; i++ {
 		m := genMetadataResponse(r, r.Intn(5) == 0)
 		connTopic := ""
